@@ -1256,6 +1256,12 @@ class AsyncServerWorld(ServerWorld):
         try:
             await self.gateway_app(scope, receive, send)
         except asyncio.CancelledError:
+            if getattr(conn, 'cancelled', False) and not self.k.killing:
+                # the application let the cancellation through: its handler
+                # for this socket is over all the same
+                req.seq_done = self.k.ev('ws.done', rid=req.rid,
+                                         esc='cancelled')
+                req.t_done = self.k.now
             raise
         except BaseException as e:  # noqa
             req.escaped = '%s: %s' % (type(e).__name__, e)
